@@ -6,6 +6,7 @@ from ..r_alias import rule_no_mutation_of_cached
 from ..r_construct import rule_seeded_string_complete as _rule_seeded
 from ..r_hygiene import rule_hygiene as _rule_hygiene
 from ..r_protocol import run_protocol as _run_protocol
+from ..r_round10 import rule_shallow_copy_of_cached_nested as _r10_sh
 
 LEVEL = 'other'
 
@@ -25,3 +26,4 @@ def run(ck, repo):
     _rule_hygiene(ck, repo, 'C19.H-dataflow-hygiene', 'C19')
     # cached and uncached calls agree: no cached value is read between a raw write it depends on and the next flush (FLUSH dimension + stale reads)
     _run_protocol(ck, repo, 'C19.D4-first-call-equals-cached-call', only_dims={'FLUSH'})
+    _r10_sh(ck, repo, 'C19.D6-shallow-copy-of-cached')
